@@ -125,8 +125,55 @@ def check_zero(case, ctx):
     check(case, ctx)
 
 
+REUSE_CFGS = ["borda", "borda_bucket", "copeland", "kwiksort", "pickaperm", "bioconsert", "bioco", "bioconsert_copeland",
+              "parcons_default", "exact_pulp", "exact_default", "parcons_kwik_b2"]
+
+
+@st.composite
+def reuse_cases(draw, tier):
+    """ONE algorithm instance used for several (dataset, scheme) pairs, scores read in a drawn order"""
+    name = draw(st.sampled_from(REUSE_CFGS))
+    runs = []
+    for _ in range(draw(st.sampled_from([2, 2, 3]))):
+        runs.append({"scheme": draw(st.one_of(gen.preset_multiples(["unifying", "unifying", "induced"]),
+                                              gen.any_schemes())),
+                     "dataset": draw(gen.datasets(max_n=6, max_m=4)), "flag": draw(st.booleans()),
+                     "read_now": draw(st.booleans())})
+    return {"config": name, "runs": runs, "rng": draw(st.integers(0, 999))}
+
+
+def check_reuse(case, ctx):
+    import random
+    cfg = configs.BY_NAME[case["config"]]
+    results = []
+    with configs.solver_env("absent"):
+        alg = lib.must(cfg.factory)
+        for k, r in enumerate(case["runs"]):
+            d, s = lib.mk_dataset(r["dataset"]["rankings"]), lib.mk_scheme(r["scheme"])
+            random.seed(case["rng"] + k)
+            st_, val = lib.call(alg.compute_consensus_rankings, d, s, r["flag"],
+                                allowed=configs.REFUSALS + (configs.IncompatibleArgumentsException,))
+            if st_ == "ok" and r["read_now"]:
+                lib.must(lambda: val.kemeny_score)
+            results.append((st_, val, r))
+    answered = [x for x in results if x[0] == "ok"]
+    ctx.stats.case(case, len(answered) >= 2 and any(x[2]["read_now"] for x in answered[:-1]),
+                   ["cfg:" + case["config"], "answered:%d" % len(answered)])
+    for st_, val, r in answered:
+        rankings, scheme = r["dataset"]["rankings"], r["scheme"]
+        models = well_formed(val, rankings, r["flag"], case["config"])
+        inst = oracle.Instance(rankings, scheme)
+        got = lib.must(lambda: val.kemeny_score)
+        for m in models:
+            want = inst.score(m)
+            if got is None or abs(float(got) - float(want)) > 1e-6:
+                raise Violation("%s instance reused for %d runs: consensus %s for dataset %s reports kemeny_score %r, "
+                                "its score is %s" % (case["config"], len(case["runs"]), m, rankings, got, want))
+
+
 def subchecks():
     return [HypSub("reported_any", alg_cases, check, quick=2500, thorough=60000),
             HypSub("reported_self_scored", self_scored_cases, check, quick=2500, thorough=60000),
             HypSub("accepted_families_scaled", restricted_cases, check, 2500, 40000),
+            HypSub("instance_reuse", reuse_cases, check_reuse, 2000, 30000),
             HypSub("zero_objective", zero_objective_cases, check_zero, quick=600, thorough=8000)]
